@@ -110,7 +110,8 @@ type c12Round struct {
 
 func c12(ctx *core.Ctx) {
 	quietLogs()
-	ctx.Rule("rounds of W mutator goroutines (each owns one WebService key /k<i>: Add/Remove of a fresh WebService, and one route key /d<i>/r/{id:regex}: Route/RemoveRoute on its own dynamic-routes service (empty whenever the route is withdrawn) and a third key /dyn/s<i>/{id:regex} on the dynamic-routes service all mutators share, each generation with another regular expression; an OPTIONS filter and 0-5 further container filters are installed, every service has a filter of its own (each 200 answer must carry exactly its own chain) and readers also send OPTIONS; Remove and RemoveRoute are now and then repeated for something no longer registered; handlers return a unique generation) and R reader goroutines probing dynamic and stable URLs; both routers x {ServeHTTP, Dispatch}; yields injected through If-conditions (inside the read-locked selection) and a container filter. Monitors: Go race detector; client-boundary history {op, key, gen, call, return} checked by porcupine per key against a register over {absent, gen}; stable URLs must always get their fixed answer; panics; blocked-goroutine state detector. Non-trivial = a read that overlapped a write of its own key; distinct by (round configuration, key, observed value class).")
+	defer restful.EnableTracing(false)
+	ctx.Rule("rounds of W mutator goroutines (each owns one WebService key /k<i>: Add/Remove of a fresh WebService, and one route key /d<i>/r/{id:regex}: Route/RemoveRoute on its own dynamic-routes service (empty whenever the route is withdrawn) and a third key /dyn/s<i>/{id:regex} on the dynamic-routes service all mutators share, each generation with another regular expression; an OPTIONS filter and 0-5 further container filters are installed, every service has a filter of its own (each 200 answer must carry exactly its own chain) and readers also send OPTIONS; Remove and RemoveRoute are now and then repeated for something no longer registered; handlers return a unique generation) and R reader goroutines probing dynamic and stable URLs; both routers x {ServeHTTP, Dispatch}; every fourth round with trace logging on; yields injected through If-conditions (inside the read-locked selection) and a container filter. Monitors: Go race detector; client-boundary history {op, key, gen, call, return} checked by porcupine per key against a register over {absent, gen}; stable URLs must always get their fixed answer; panics; blocked-goroutine state detector. Non-trivial = a read that overlapped a write of its own key; distinct by (round configuration, key, observed value class).")
 	ctx.Assume("schedules are not reproducible: evidence reports the overlap actually observed", "a porcupine timeout is inconclusive, never a violation")
 	rounds := ctx.N(64, 6000)
 	var totalOps, totalOverlap, partitions int
@@ -134,6 +135,8 @@ func c12(ctx *core.Ctx) {
 			rd.Mutators, rd.OpsPer = 12, 15
 		}
 		ctx.Case(ri, core.JSON(rd))
+		// every fourth round with trace logging on (the trace lines are produced while routes change)
+		restful.EnableTracing(ri%4 == 3 || ri%8 == 4)
 		c := restful.NewContainer()
 		if rd.Router == "jsr311" {
 			c.Router(restful.RouterJSR311{})
